@@ -104,8 +104,10 @@ IsGap(k) ==
      /\ (AtomLike(m) => ~(m.ix[1] <= k /\ k < m.ix[2]))
      /\ ((~AtomLike(m) /\ m.t # "fcomp") => ~(m.ix[1] <= k /\ k < m.ix[1] + OpenerLen(m) - 1))
      /\ (m.t = "discard" => ~(m.ix[1] <= k /\ k < m.ix[1] + 1))
+     /\ ((m.t = "comment" /\ inp[m.ix[2]] # "\n") => k # m.ix[2])   \* still inside an unterminated comment
 Insert(k, sep) == SubSeq(inp, 1, k) \o sep \o SubSeq(inp, k + 1, N)
-Separators == {<<" ">>, <<"\n">>, <<";", "a", "\n">>, <<" ", "#", "_", " ", "a", " ">>, <<"\t">>}
+Separators == {<<" ">>, <<"\n">>, <<";", "a", "\n">>, <<" ", "#", "_", " ", "a", " ">>, <<"\t">>, <<"\r">>,
+               <<";", "a", "\r", "b", "(", "\n">>}       \* a comment runs to the line feed, not to a carriage return
 SepLaw ==
   (res.st = "ok" /\ Mode = "enum") =>
      \A k \in 0..N : IsGap(k) =>
